@@ -394,7 +394,9 @@ class Models:
         if isinstance(v, SSeq):
             return v.get(k)
         if isinstance(v, SArr):
-            return SReal(z3.Select(v.arr, k if not isinstance(k, int) else z3.IntVal(k)), "npfloat")
+            kt = k if not isinstance(k, int) else z3.IntVal(k)
+            self.env_fact(v, kt)
+            return SReal(z3.Select(v.arr, kt), "npfloat")
         if isinstance(v, PList):
             if isinstance(k, int):
                 return v.items[k]
@@ -402,6 +404,18 @@ class Models:
         if isinstance(v, tuple):
             return v[k]
         raise Unsupported(f"element of {type(v).__name__}")
+
+    def env_fact(self, arr: SArr, kt) -> None:
+        """x[IDX[name]] = ENV[name] for the point array x (definition of the environment denoted by x)."""
+        if arr.envlink is None:
+            return
+        IDX, ENV, path = arr.envlink
+        if z3.is_app(kt) and kt.decl().kind() == z3.Z3_OP_SELECT and kt.arg(0).eq(IDX):
+            nm = kt.arg(1)
+            key = f"envfact:{arr.arr}:{nm}"
+            if key not in path.unfolded:
+                path.unfolded.add(key)
+                path.assume(z3.Select(arr.arr, kt) == z3.Select(ENV, nm))
 
     def as_seq(self, v) -> SSeq:
         if isinstance(v, SSeq):
@@ -679,6 +693,7 @@ class Models:
             if isinstance(k, slice):
                 return self.slice_seq(ip, self.as_seq(o), k)
             idx = self.index_in_bounds(ip, k, o.n)
+            self.env_fact(o, self.len_term(idx))
             return SReal(z3.Select(o.arr, self.len_term(idx)), "npfloat")
         rows, cols = o.shape
         if isinstance(k, tuple) and len(k) == 2:
@@ -767,9 +782,19 @@ class Models:
         S = self.as_seq_iter(ip, first)
 
         def elem(k):
+            kt = k if not isinstance(k, int) else z3.IntVal(k)
+            ip.reg.index_used(ip, kt)
             f2 = Frame(fr.module, {}, fr, fr.finfo)
-            ip.assign_target(g.target, S.get(k), f2)
-            return ip.ev(e.elt, f2)
+            inr = z3.And(kt >= 0, kt < self.len_term(S.n))
+            guarded = not ip.path.entails(inr)
+            if guarded:
+                ip.path.guards.append(inr)
+            try:
+                ip.assign_target(g.target, S.get(k), f2)
+                return ip.ev(e.elt, f2)
+            finally:
+                if guarded:
+                    ip.path.guards.pop()
         return SSeq(S.n, elem, "list", "comprehension@%d" % e.lineno)
 
     def as_seq_iter(self, ip, it) -> SSeq:
@@ -1021,6 +1046,8 @@ class Models:
     def b_tuple(self, ip, a, kw, node):
         if not a:
             return ()
+        if isinstance(a[0], SpecFn) and a[0].meta.get("as_dict") is not None:
+            return a[0]        # tuple(d.items()) of a symbolic map: only dict(...) of it is supported
         items = ip.concrete_iter(a[0]) if not (isinstance(a[0], SSeq) and not isinstance(a[0].n, int)) else None
         if items is not None:
             return tuple(items)
@@ -1194,7 +1221,12 @@ class Models:
             return SArr(v.arr, v.n, v.shape)
         if isinstance(v, (SSeq, PList)):
             S = self.as_seq(v)
-            return SSeq(S.n, lambda k: self.np_scalar(S.get(k)) if self.isnum(S.get(k)) else S.get(k), "ndarray", "np.array")
+            def el(k):
+                v_ = S.get(k)
+                if isinstance(v_, (SInt, int)) and not isinstance(v_, bool):
+                    return v_           # integer dtype (index arrays)
+                return self.np_scalar(v_) if self.isnum(v_) else v_
+            return SSeq(S.n, el, "ndarray", "np.array")
         raise Unsupported(f"np.array({type(v).__name__})")
 
     def b_numpy_zeros(self, ip, a, kw, node):
@@ -1326,7 +1358,7 @@ class Models:
                     return recv.lookup(nm)
                 return default
             if name == "items":
-                return SpecFn(None, "map.items", meta={"items_of": recv})
+                return SpecFn(None, "map.items", meta={"items_of": recv, "idx": recv.idx, "as_dict": lambda ip2, m=recv: m})
         if isinstance(recv, (SSeq, SArr)):
             if name in ("flatten", "copy", "ravel"):
                 if isinstance(recv, SArr) and recv.shape is not None:
